@@ -2,7 +2,7 @@
 # all_quick.sh [extra seeds...] : every property's quick check on the current /repo working tree with the default seed
 # (evidence files are rewritten), then with each extra seed (evidence goes to a scratch file). Exit 1 if any fails.
 # Run this -- with a few extra seeds -- before every commit that touches the spec or the generator.
-cd ${VERIF_DIR:-/verif}; rc=0
+mkdir -p /tmp/scratch; cd ${VERIF_DIR:-/verif}; rc=0
 for p in C01 C02 C03 C04 C05 C06 C07 C08 C09 C10 C11 C12 C13 C14 C15 C16 C17 C18; do
   out=$(./check $p quick 2>/dev/null); code=$?
   echo "$out" | tail -1
